@@ -34,6 +34,15 @@ CASES = {
                                             '[act]\n-python @[PROBE]@ out2.json 0\n', 0),
     'child_cd_does_not_move_the_test': ('[setup]\n$ cd / && pwd > /dev/null\nrun -python @[PROBE]@ out1.json 0\n'
                                         '[act]\n-python @[PROBE]@ out2.json 0\n', 0),
+    # the operating system refuses to start the program of the action: HARD_ERROR, cleanup still runs
+    'program_cannot_be_started': ('[act]\n% no-such-program-anywhere-on-the-path\n[cleanup]\nrun -python @[PROBE]@ out1.json 0\n', 128),
+    # a program that is used as a text: its exit code does not matter with -ignore-exit-code, what it writes on the other
+    # channel goes nowhere
+    'text_from_failing_program': ('[setup]\nfile t.txt = -stderr-from -ignore-exit-code -python @[PROBE]@ out1.json 3 --print "on stdout" --eprint "on stderr"\n'
+                                  '[act]\n-python @[PROBE]@ out2.json 0\n[assert]\ncontents t.txt : equals <<EOF\non stderr\nEOF\n', 0),
+    # a transformer program gets the text on its stdin; the action gets the stdin set in [setup]
+    'stdin_of_transformer_and_action': ('[setup]\nstdin = "for the action"\n[act]\n-python @[PROBE]@ out2.json 0 --print "line"\n[assert]\n'
+                                        'stdout -transformed-by run -python @[PROBE]@ out1.json 0 --print "replaced"\n  equals <<EOF\nreplaced\nEOF\n', 0),
     'timeout_kills': ('[setup]\ntimeout = 1\n[act]\n-python @[PROBE]@ out2.json 0 --sleep 30\n[cleanup]\nrun -python @[PROBE]@ out1.json 0\n', 128),
 }
 
@@ -75,9 +84,11 @@ def run_sim(name, text, scratch, real):
     from sim import procs as procs_mod
     orig_init = procs_mod.SimPopen._init
 
-    def hooked(self, args, stdin, stdout, stderr, shell, cwd, env):
+    def hooked(self, args, stdin, stdout, stderr, shell, cwd, env, *fds):
         a = list(args) if not isinstance(args, str) else args.split()
         b = {'exit': 0}
+        if a and 'no-such-program' in a[0]:
+            b['spawn_error'] = 'ENOENT'  # (what the operating system says to the real one)
         if PROBE in a:
             i = a.index(PROBE)
             b['exit'] = int(a[i + 2])
@@ -89,7 +100,7 @@ def run_sim(name, text, scratch, real):
             if '--sleep' in rest:
                 b['duration'] = float(rest[rest.index('--sleep') + 1])
         kernel.cur().procs[procs_mod.tag_of(args, shell)] = b
-        return orig_init(self, args, stdin, stdout, stderr, shell, cwd, env)
+        return orig_init(self, args, stdin, stdout, stderr, shell, cwd, env, *fds)
 
     procs_mod.SimPopen._init = hooked
     try:
